@@ -343,17 +343,26 @@ theorem roman_chars (s : Str) (n : Nat) (h : decodeRoman s = some n) : ∀ c ∈
   | some vs => exact mapM_roman_chars s vs hm
 
 
-theorem formatted_ok (ha : AlnumOK alnum) (t width n : Nat) (ht : TypeOK t) (h1 : 1 ≤ n) (h2 : n ≤ 3999) :
+/-- the number fits the numbering type of its format token: at least 1; inside the 100-slot buffer for the
+alphabetic types (every 64-bit value does); at most 3999 for the roman types; no bound for decimal types -/
+def NumFits (t n : Nat) : Prop :=
+  1 ≤ n ∧ ((t = 65 ∨ t = 97) → n < 26 ^ XalanModel.Generated.C17.alphaBufLen) ∧ ((t = 73 ∨ t = 105) → n ≤ 3999)
+
+instance (t n : Nat) : Decidable (NumFits t n) := by unfold NumFits; exact inferInstance
+
+theorem formatted_ok (ha : AlnumOK alnum) (t width n : Nat) (ht : TypeOK t) (hfit : NumFits t n) :
     ∃ s, getFormattedNumber {} t width n = some s ∧ s ≠ [] ∧ Homog alnum true s ∧ decodeNumber t [] s = some n := by
-  have hpow : n < 26 ^ XalanModel.Generated.C17.alphaBufLen := Nat.lt_of_le_of_lt h2 (by decide)
+  have h1 : 1 ≤ n := hfit.1
   unfold getFormattedNumber decodeNumber
   by_cases e65 : t = 65
-  · obtain ⟨s, hs, hd, _⟩ := int2alphaCount_roundtrip n h1 hpow
+  · have hpow := hfit.2.1 (Or.inl e65)
+    obtain ⟨s, hs, hd, _⟩ := int2alphaCount_roundtrip n h1 hpow
     have hch := decodeAlpha_chars s 0 n hd
     refine ⟨s, by simp [e65, hs], ?_, fun c hc => ha.upper c (hch c hc).1 (hch c hc).2, by simp [e65, hd]⟩
     intro he; subst he; simp [decodeAlpha] at hd; omega
   by_cases e97 : t = 97
-  · obtain ⟨s, hs, hd, _⟩ := int2alphaCount_roundtrip n h1 hpow
+  · have hpow := hfit.2.1 (Or.inr e97)
+    obtain ⟨s, hs, hd, _⟩ := int2alphaCount_roundtrip n h1 hpow
     have hch := decodeAlpha_chars s 0 n hd
     have hl := lower_chars s hch
     refine ⟨toLowerASCII s, by simp [e97, hs], ?_, fun c hc => ha.lower c (hl c hc).1 (hl c hc).2, ?_⟩
@@ -364,12 +373,14 @@ theorem formatted_ok (ha : AlnumOK alnum) (t width n : Nat) (ht : TypeOK t) (h1 
       subst this; simp [decodeAlpha] at hd; omega
     · simp [e97, upper_lower s hch, hd]
   by_cases e73 : t = 73
-  · obtain ⟨s, hs, hd⟩ := toRoman_roundtrip n h1 h2
+  · have h2 := hfit.2.2 (Or.inl e73)
+    obtain ⟨s, hs, hd⟩ := toRoman_roundtrip n h1 h2
     have hch := roman_chars s n hd
     refine ⟨s, by simp [e73, hs], ?_, fun c hc => ha.upper c (hch c hc).1 (hch c hc).2, by simp [e73, hd]⟩
     intro he; subst he; simp [decodeRoman, decodeRomanVals] at hd; omega
   by_cases e105 : t = 105
-  · obtain ⟨s, hs, hd⟩ := toRoman_roundtrip n h1 h2
+  · have h2 := hfit.2.2 (Or.inr e105)
+    obtain ⟨s, hs, hd⟩ := toRoman_roundtrip n h1 h2
     have hch := roman_chars s n hd
     have hl := lower_chars s hch
     refine ⟨toLowerASCII s, by simp [e105, hs], ?_, fun c hc => ha.lower c (hl c hc).1 (hl c hc).2, ?_⟩
@@ -479,23 +490,27 @@ theorem getD_ge (a : List Nat) (i d : Nat) (h : a.length ≤ i) : a.getD i d = d
 
 /-- the main induction: the loop of `formatNumberList` produces a `Body`, and every number decodes back under the
 numbering type that the *list of letter/digit tokens* assigns to its position (last one repeating) -/
-theorem fmtLoop_body (ha : AlnumOK alnum) (toks : List Str) (tI : Nat) (h2 : tI ≤ toks.length) (T : List Nat)
+theorem fmtLoop_body (ha : AlnumOK alnum) (g : Grouping) (gs : Str)
+    (hnum : ∀ t width n, TypeOK t → NumFits t n →
+      ∃ s, getFormattedNumber g t width n = some s ∧ s ≠ [] ∧ Homog alnum true s ∧ decodeNumber t gs s = some n)
+    (toks : List Str) (tI : Nat) (h2 : tI ≤ toks.length) (T : List Nat)
     (hT : ∀ t ∈ T, TypeOK t) :
     ∀ (l : List Nat) (st : FmtState) (done : List Nat) (j : Nat),
-      l ≠ [] → (∀ n ∈ l, 1 ≤ n ∧ n ≤ 3999) →
+      l ≠ [] → (∀ i, i < l.length → NumFits (T.getD (j + i) (T.getLastD 49)) (l.getD i 0)) →
       st.it ≤ tI → Alt alnum true (restOf toks tI st.it) →
       T = done ++ typesOf alnum (restOf toks tI st.it) →
       st.numberType = done.getLastD 49 →
       (restOf toks tI st.it ≠ [] → done.length = j) → done.length ≤ j →
       (∀ s, st.sep = some s → s ≠ [] ∧ Homog alnum false s) →
-      ∃ body fs, fmtLoop alnum {} toks tI l st = some body ∧ Body alnum fs body ∧ fs.length = l.length ∧
-        ∀ i, i < l.length → decodeNumber (T.getD (j + i) (T.getLastD 49)) [] (fs.getD i []) = some (l.getD i 0) := by
+      ∃ body fs, fmtLoop alnum g toks tI l st = some body ∧ Body alnum fs body ∧ fs.length = l.length ∧
+        ∀ i, i < l.length → decodeNumber (T.getD (j + i) (T.getLastD 49)) gs (fs.getD i []) = some (l.getD i 0) := by
   intro l
   induction l with
   | nil => intro _ _ _ h; exact absurd rfl h
   | cons n rest ih =>
     intro st done j _ hl h0 halt hTd hty hj hdj hsep
-    have hn := hl n (by simp)
+    have hn0 := hl 0 (by simp)
+    simp only [Nat.add_zero, List.getD_cons_zero] at hn0
     -- one round of the cursor
     have hstep : ∃ st' done', st' = fmtStep toks tI st ∧ st'.it ≤ tI ∧ Alt alnum true (restOf toks tI st'.it) ∧
         T = done' ++ typesOf alnum (restOf toks tI st'.it) ∧ st'.numberType = done'.getLastD 49 ∧
@@ -559,7 +574,7 @@ theorem fmtLoop_body (ha : AlnumOK alnum) (toks : List Str) (tI : Nat) (h2 : tI 
             | some y => exact List.mem_of_getLast? hg
           rw [hTe] at hT
           exact hT _ this
-    obtain ⟨s, hs, hsne, hsh, hsd⟩ := formatted_ok alnum ha st'.numberType st'.numberWidth n htok hn.1 hn.2
+    obtain ⟨s, hs, hsne, hsh, hsd⟩ := hnum st'.numberType st'.numberWidth n htok (by rw [← htype]; exact hn0)
     simp only [fmtLoop, ← hst', hs]
     cases rest with
     | nil =>
@@ -573,7 +588,9 @@ theorem fmtLoop_body (ha : AlnumOK alnum) (toks : List Str) (tI : Nat) (h2 : tI 
       simpa using hsd
     | cons m rest' =>
       obtain ⟨body, fs, hb, hbody, hlen, hdec⟩ := ih st' done' (j + 1) (by simp)
-        (fun x hx => hl x (by simp [hx])) h0' halt' hTd' hty' hj' hdj' hsep'
+        (fun i hi => by
+          have := hl (i + 1) (by simp only [List.length_cons] at hi ⊢; omega)
+          simpa [Nat.add_assoc, Nat.add_comm 1 i] using this) h0' halt' hTd' hty' hj' hdj' hsep'
       have hsepok : (st'.sep.getD [46]) ≠ [] ∧ Homog alnum false (st'.sep.getD [46]) := by
         cases hsp : st'.sep with
         | none =>
@@ -666,32 +683,34 @@ theorem filter_naf_singleton (t : Str) (h : firstIsAlnum alnum t = false) : [t].
   simp [h]
 
 /-- **formatList_roundtrip** (helper form) -/
-theorem formatList_roundtrip_aux (ha : AlnumOK alnum) (fmt : Str) (l : List Nat) (hl : l ≠ [])
-    (hr : ∀ n ∈ l, 1 ≤ n ∧ n ≤ 3999) (ht : ∀ t ∈ numberTypes alnum fmt, TypeOK t) :
-    ∃ out, formatNumberList alnum {} fmt l = some out ∧ decodeList alnum {} fmt out = some l := by
-  have hgs : ∀ out : Str, decodeList alnum {} fmt out =
+theorem formatList_roundtrip_gen (ha : AlnumOK alnum) (g : Grouping) (gs : Str)
+    (hnum : ∀ t width n, TypeOK t → NumFits t n →
+      ∃ s, getFormattedNumber g t width n = some s ∧ s ≠ [] ∧ Homog alnum true s ∧ decodeNumber t gs s = some n)
+    (fmt : Str)
+    (hgs : ∀ out : Str, decodeList alnum g fmt out =
       (((tokenize alnum out).filter (firstIsAlnum alnum)).zipIdx).mapM
-        (fun (p : Str × Nat) => decodeNumber ((numberTypes alnum fmt).getD p.2 ((numberTypes alnum fmt).getLastD 49)) [] p.1) := by
-    intro out
-    have e : (fun c => alnum c || ([] : Str).contains c) = alnum := by funext c; simp
-    simp only [decodeList, Bool.false_eq_true, false_and, if_false, e]
+        (fun (p : Str × Nat) => decodeNumber ((numberTypes alnum fmt).getD p.2 ((numberTypes alnum fmt).getLastD 49)) gs p.1))
+    (l : List Nat) (hl : l ≠ [])
+    (hr : ∀ i, i < l.length → NumFits ((numberTypes alnum fmt).getD i ((numberTypes alnum fmt).getLastD 49)) (l.getD i 0))
+    (ht : ∀ t ∈ numberTypes alnum fmt, TypeOK t) :
+    ∃ out, formatNumberList alnum g fmt l = some out ∧ decodeList alnum g fmt out = some l := by
   simp only [hgs]
   have hnt : numberTypes alnum fmt = typesOf alnum (tokenize alnum (if fmt.isEmpty then [49] else fmt)) := by
     simp only [numberTypes, typesOf]
     rfl
-  rw [hnt] at ht ⊢
+  rw [hnt] at ht hr ⊢
   simp only [formatNumberList]
   have hne : (if fmt.isEmpty then [49] else fmt) ≠ [] := by
     split
     · simp
     · rename_i h; intro he; rw [he] at h; simp at h
-  generalize (if fmt.isEmpty then [49] else fmt) = fmt' at hne ht ⊢
+  generalize (if fmt.isEmpty then [49] else fmt) = fmt' at hne ht hr ⊢
   cases fmt' with
   | nil => exact absurd rfl hne
   | cons c cs =>
     have halt : Alt alnum (alnum c) (tokenize alnum (c :: cs)) := tokenizeFuel_alt alnum _ c cs (Nat.le_refl _)
     have htne : tokenize alnum (c :: cs) ≠ [] := by simp [tokenize, tokenizeFuel]
-    generalize tokenize alnum (c :: cs) = toks at halt htne ht ⊢
+    generalize tokenize alnum (c :: cs) = toks at halt htne ht hr ⊢
     cases toks with
     | nil => exact absurd rfl htne
     | cons t0 ts =>
@@ -745,11 +764,11 @@ theorem formatList_roundtrip_aux (ha : AlnumOK alnum) (fmt : Str) (l : List Nat)
           rw [hmid]
           conv => lhs; rw [hsplit]
           rw [typesOf_append, htrail.1]; simp
-        obtain ⟨body, fs, hb, hbody, hlen, hdec⟩ := fmtLoop_body alnum ha (t0 :: ts) tI htI1.2 (typesOf alnum (t0 :: ts)) ht
-          l { it := 0 } [] 0 hl hr (by simp) haltm hT rfl (fun _ => rfl) (by simp) (by intro s hs; cases hs)
+        obtain ⟨body, fs, hb, hbody, hlen, hdec⟩ := fmtLoop_body alnum ha g gs hnum (t0 :: ts) tI htI1.2 (typesOf alnum (t0 :: ts)) ht
+          l { it := 0 } [] 0 hl (by simpa using hr) (by simp) haltm hT rfl (fun _ => rfl) (by simp) (by intro s hs; cases hs)
         refine ⟨[] ++ body ++ (if tI ≠ (t0 :: ts).length then (t0 :: ts).getD tI [] else []), by rw [hb]; rfl, ?_⟩
         rw [tokenize_leader_body alnum [] _ (by intro c hc; simp at hc) htrail.2 fs body hbody]
-        exact mapM_zipIdx_decode (fun i s => decodeNumber ((typesOf alnum (t0 :: ts)).getD i ((typesOf alnum (t0 :: ts)).getLastD 49)) [] s)
+        exact mapM_zipIdx_decode (fun i s => decodeNumber ((typesOf alnum (t0 :: ts)).getD i ((typesOf alnum (t0 :: ts)).getLastD 49)) gs s)
           fs l 0 hlen hdec
       · -- leader = t0
         have haf0' : firstIsAlnum alnum t0 = false := by simpa using haf0
@@ -779,11 +798,22 @@ theorem formatList_roundtrip_aux (ha : AlnumOK alnum) (fmt : Str) (l : List Nat)
           obtain ⟨k, hk⟩ : ∃ k, tI = k + 1 := ⟨tI - 1, by omega⟩
           subst hk
           simp [typesOf, haf0']
-        obtain ⟨body, fs, hb, hbody, hlen, hdec⟩ := fmtLoop_body alnum ha (t0 :: ts) tI htI1.2 (typesOf alnum (t0 :: ts)) ht
-          l { it := 1 } [] 0 hl hr htI1.1 haltm hT rfl (fun _ => rfl) (by simp) (by intro s hs; cases hs)
+        obtain ⟨body, fs, hb, hbody, hlen, hdec⟩ := fmtLoop_body alnum ha g gs hnum (t0 :: ts) tI htI1.2 (typesOf alnum (t0 :: ts)) ht
+          l { it := 1 } [] 0 hl (by simpa using hr) htI1.1 haltm hT rfl (fun _ => rfl) (by simp) (by intro s hs; cases hs)
         refine ⟨(t0 :: ts).getD 0 [] ++ body ++ (if tI ≠ (t0 :: ts).length then (t0 :: ts).getD tI [] else []), by rw [hb]; rfl, ?_⟩
         rw [tokenize_leader_body alnum _ _ (by simpa using ht0h) htrail.2 fs body hbody]
-        exact mapM_zipIdx_decode (fun i s => decodeNumber ((typesOf alnum (t0 :: ts)).getD i ((typesOf alnum (t0 :: ts)).getLastD 49)) [] s)
+        exact mapM_zipIdx_decode (fun i s => decodeNumber ((typesOf alnum (t0 :: ts)).getD i ((typesOf alnum (t0 :: ts)).getLastD 49)) gs s)
           fs l 0 hlen hdec
+
+
+/-- the list round trip without grouping -/
+theorem formatList_roundtrip_aux (ha : AlnumOK alnum) (fmt : Str) (l : List Nat) (hl : l ≠ [])
+    (hr : ∀ i, i < l.length → NumFits ((numberTypes alnum fmt).getD i ((numberTypes alnum fmt).getLastD 49)) (l.getD i 0))
+    (ht : ∀ t ∈ numberTypes alnum fmt, TypeOK t) :
+    ∃ out, formatNumberList alnum {} fmt l = some out ∧ decodeList alnum {} fmt out = some l := by
+  apply formatList_roundtrip_gen alnum ha {} [] (fun t w n ht hf => formatted_ok alnum ha t w n ht hf) fmt _ l hl hr ht
+  intro out
+  have e : (fun c => alnum c || ([] : Str).contains c) = alnum := by funext c; simp
+  simp only [decodeList, Bool.false_eq_true, false_and, if_false, e]
 
 end XalanModel.C17
